@@ -29,15 +29,16 @@ VARIABLES l, run, cfg,
   refrag,      \* {<<port offset, sn>>}: DATAFRAGs sent to that port since loss was last switched
   arrived,     \* {<<port offset, sn, fragment>>}: fragments forwarded to that port at any time of the run
   nfrags,      \* sn -> number of fragments the sample has (from the DATAFRAG headers)
+  txc,         \* <<port offset, sn, fragment>> -> how often that fragment was put on the wire for that port
   viol, known
-wire == <<guid, nack, refrag, arrived, nfrags>>
-tvars == <<l, run, cfg, matchDone, lateDone, written, got, gone, guid, nack, refrag, arrived, nfrags, viol, known>>
+wire == <<guid, nack, refrag, arrived, nfrags, txc>>
+tvars == <<l, run, cfg, matchDone, lateDone, written, got, gone, guid, nack, refrag, arrived, nfrags, txc, viol, known>>
 
 NoCfg == [keyed |-> TRUE, wrel |-> TRUE, rrel |-> TRUE, wtl |-> TRUE, rtl |-> TRUE, depth |-> 0, late |-> "none", third |-> FALSE, del |-> "none"]
 TraceInit ==
   /\ l = 1 /\ run = 0 /\ cfg = NoCfg /\ matchDone = FALSE /\ lateDone = FALSE
   /\ written = <<>> /\ got = [w \in {"R", "R2"} |-> <<>>] /\ gone = {} /\ viol = {} /\ known = {}
-  /\ guid = [w \in {"R", "R2"} |-> <<"", 0>>] /\ nack = {} /\ refrag = {} /\ arrived = {} /\ nfrags = <<>>
+  /\ guid = [w \in {"R", "R2"} |-> <<"", 0>>] /\ nack = {} /\ refrag = {} /\ arrived = {} /\ nfrags = <<>> /\ txc = <<>>
 
 Compat == (cfg.wrel \/ ~cfg.rrel) /\ (cfg.wtl \/ ~cfg.rtl)
 Compat2 == cfg.wrel /\ (cfg.wtl \/ cfg.late # "tl")
@@ -73,6 +74,9 @@ S3Sig(who, miss) ==
        /\ <<guid[who][2], sn>> \notin refrag
        /\ sn \in DOMAIN nfrags
        /\ \E f \in 1..nfrags[sn] : <<guid[who][2], sn, f>> \notin arrived
+       \* the writer did repeat every fragment that never arrived at least once (a writer that never repairs is not S3)
+       /\ \A f \in 1..nfrags[sn] : <<guid[who][2], sn, f>> \notin arrived =>
+             (<<guid[who][2], sn, f>> \in DOMAIN txc /\ txc[<<guid[who][2], sn, f>>] >= 2)
 S3Clause == "C07_S3_delivery_stuck_behind_sample_with_lost_fragment"
 
 \* R: reliable keep-all pair that was matched before the first write: everything written, in the order written
@@ -131,11 +135,11 @@ Step ==
                        late |-> e.late, third |-> e.third, del |-> e.del]
             /\ matchDone' = FALSE /\ lateDone' = FALSE /\ written' = <<>> /\ got' = [w \in {"R", "R2"} |-> <<>>]
             /\ gone' = {} /\ viol' = {} /\ known' = {}
-            /\ guid' = [w \in {"R", "R2"} |-> <<"", 0>>] /\ nack' = {} /\ refrag' = {} /\ arrived' = {} /\ nfrags' = <<>>
+            /\ guid' = [w \in {"R", "R2"} |-> <<"", 0>>] /\ nack' = {} /\ refrag' = {} /\ arrived' = {} /\ nfrags' = <<>> /\ txc' = <<>>
        [] e.ev = "Create" ->
             /\ viol' = viol \cup (IF ~e.ok THEN {"C07_entity_creation_failed"} ELSE {})
             /\ guid' = IF e.what \in {"R", "R2"} THEN [guid EXCEPT ![e.what] = <<e.guid, e.port>>] ELSE guid
-            /\ UNCHANGED <<run, cfg, matchDone, lateDone, written, got, gone, known, nack, refrag, arrived, nfrags>>
+            /\ UNCHANGED <<run, cfg, matchDone, lateDone, written, got, gone, known, nack, refrag, arrived, nfrags, txc>>
        [] e.ev = "St" ->
             /\ viol' = viol \cup (IF e.k = "M" /\ (e.cur < 0 \/ e.chg \notin {-1, 1}) THEN {"C07_matched_status_malformed"} ELSE {})
             /\ UNCHANGED <<run, cfg, matchDone, lateDone, written, got, gone, known, wire>>
@@ -169,7 +173,7 @@ Step ==
             /\ UNCHANGED <<run, cfg, matchDone, lateDone, written, got, viol, known, wire>>
        [] e.ev = "Loss" ->    \* loss switched on or off: a new window of observation starts
             /\ nack' = {} /\ refrag' = {}
-            /\ UNCHANGED <<run, cfg, matchDone, lateDone, written, got, gone, viol, known, guid, arrived, nfrags>>
+            /\ UNCHANGED <<run, cfg, matchDone, lateDone, written, got, gone, viol, known, guid, arrived, nfrags, txc>>
        [] e.ev = "Net" ->
             /\ nack' = IF e.k = "NACKFRAG" /\ e.fate = "fwd" THEN nack \cup {<<e.rg, e.sn>>} ELSE nack
             /\ refrag' = IF e.k = "FRAG" THEN refrag \cup {<<e.to, e.sn>>} ELSE refrag
@@ -179,6 +183,10 @@ Step ==
                             THEN [x \in DOMAIN nfrags \cup {e.sn} |->
                                     IF x = e.sn THEN (e.size + e.fsz - 1) \div e.fsz ELSE nfrags[x]]
                             ELSE nfrags
+            /\ txc' = IF e.k = "FRAG"
+                         THEN LET ks == {<<e.to, e.sn, f>> : f \in e.f..(e.f + e.n - 1)} IN
+                              [x \in DOMAIN txc \cup ks |-> (IF x \in DOMAIN txc THEN txc[x] ELSE 0) + (IF x \in ks THEN 1 ELSE 0)]
+                         ELSE txc
             /\ UNCHANGED <<run, cfg, matchDone, lateDone, written, got, gone, viol, known, guid>>
        [] e.ev \in {"Blackout", "End"} -> UNCHANGED <<run, cfg, matchDone, lateDone, written, got, gone, viol, known, wire>>
   /\ (viol' # viol /\ viol' # {}) =>
